@@ -71,3 +71,40 @@ Proof. vm_compute. reflexivity. Qed.
 Print Assumptions C07_demo.
 Print Assumptions C07_replay_converges.
 Print Assumptions C07_replay_idempotent.
+
+(* ---------- ANY CONFIGURATION (Proofs/Tcfg*.v): arbitrary codec suffixes and encoded sizes; no hypothesis replaces the
+   plain configuration *)
+From STFS Require Import TcfgThms.
+
+Theorem C07_replay_converges_any_config : forall c e r j,
+  (0 < c_rs c)%N -> c_readonly c = false ->
+  forallb hb_ok ((CInitialize [slash], e) :: r) = true ->
+  forallb (fun ke => call_ok (fst ke)) r = true ->
+  forallb (fun ke => fs_call (fst ke)) r = true ->
+  let t := tp (final c init_sys ((CInitialize [slash], e) :: r)) in
+  let '(p, rr) := replay_into c t (prefix_index c t j) in
+  res_ok rr = true /\ eqb_list eqb_row (visible p) (visible (fst (rebuild c t))) = true.
+Proof. exact T07_replay_converges_any_config. Qed.
+
+Theorem C07_replay_idempotent_any_config : forall c e r j,
+  (0 < c_rs c)%N -> c_readonly c = false ->
+  forallb hb_ok ((CInitialize [slash], e) :: r) = true ->
+  forallb (fun ke => call_ok (fst ke)) r = true ->
+  forallb (fun ke => fs_call (fst ke)) r = true ->
+  let t := tp (final c init_sys ((CInitialize [slash], e) :: r)) in
+  let p1 := fst (replay_into c t (prefix_index c t j)) in
+  let '(p2, r2) := replay_into c t p1 in
+  res_ok r2 = true /\ eqb_list eqb_row (visible p2) (visible p1) = true.
+Proof. exact T07_replay_idempotent_any_config. Qed.
+
+Theorem C07_rebuild_succeeds_any_config : forall c e r,
+  (0 < c_rs c)%N -> c_readonly c = false ->
+  forallb hb_ok ((CInitialize [slash], e) :: r) = true ->
+  forallb (fun ke => call_ok (fst ke)) r = true ->
+  forallb (fun ke => fs_call (fst ke)) r = true ->
+  res_ok (snd (rebuild c (tp (final c init_sys ((CInitialize [slash], e) :: r))))) = true.
+Proof. exact T07_rebuild_ok_any_config. Qed.
+
+Print Assumptions C07_replay_converges_any_config.
+Print Assumptions C07_replay_idempotent_any_config.
+Print Assumptions C07_rebuild_succeeds_any_config.
